@@ -17,7 +17,7 @@ SPEC = {
     'min_nontrivial': 2000,
     'budget_s': {'quick': 35, 'thorough': 360},
     'assumptions': ['"in" after a number reads as inches (unit literal) and is not used as connective', 'en only (tr has no unix rules)',
-                    '"at H" with a bare hour is generated only under the default zone UTC'],
+                    '"at H" with a bare hour is read as that hour on the wall clock of the default zone (what the unchanged tree does under every default zone)'],
 }
 
 EDGE = [0, 1, 59, 60, 3599, 3600, 86399, 86400, 86401, 2**31 - 1, 2**31, 2**31 + 1, 2**32, 2**32 + 1, 10**9, 10**10, 1664582400, 253402300799, 253402214400,
